@@ -39,6 +39,9 @@ def gen_cfg(rng, real_frac=0.06, allow_long=True, engines=None):
             cfg["batch"] = rng.choice(REAL_EXC_BATCHES)
             cfg["steps"] = rng.randint(3, 6)
             cfg["n_states"] = 2 if eng == "sh" else 3
+            if eng == "sh":
+                # documented nonadiabatic options (all must survive the checkpoint round trip)
+                cfg["nonadiabatic"] = rng.choice([{}, {"tdc_method": "overlap"}, {"tdc_method": "overlap", "detect_crossings": False}, {"decohere_on_hop": True}, {"detect_crossings": False}])
         else:
             cfg["batch"] = rng.choice(REAL_BATCHES)
             cfg["steps"] = rng.randint(4, 9)
@@ -46,6 +49,9 @@ def gen_cfg(rng, real_frac=0.06, allow_long=True, engines=None):
         cfg["scf_eps"] = 1.0e-8
         if eng in ("basic", "langevin") and rng.random() < 0.35:
             cfg["uhf"] = True  # unrestricted BOMD/Langevin (XL-BOMD refuses unrestricted densities loudly)
+        if eng in ("basic", "langevin", "xl", "xl_damp") and rng.random() < 0.3:
+            # ions and (unrestricted only) a radical: the electron count must survive the checkpoint round trip
+            cfg["batch"], cfg["charges"], cfg["mult"] = rng.choice([(["oh"], [-1], None), (["nh4"], [1], None), (["nh4", "h2o"], [1, 0], None), (["oh", "hf"], [-1, 0], None)] + ([(["ch3"], None, [2])] if cfg.get("uhf") else []))
     else:
         cfg["batch"] = rng.choice(STUB_BATCHES)
         cfg["steps"] = rng.randint(4, 40)
@@ -55,6 +61,11 @@ def gen_cfg(rng, real_frac=0.06, allow_long=True, engines=None):
         if rng.random() < 0.3:
             cfg["extra_pad"] = rng.randint(1, 2)
             cfg["pad_coords"] = True
+        if eng in ("basic", "langevin", "xl", "ksa", "xl_damp") and rng.random() < 0.12:
+            # ions (the Molecule object validates the electron count it is built with, also under the stub driver)
+            cfg["batch"], cfg["charges"] = rng.choice([(["oh"], [-1]), (["nh4"], [1]), (["nh4", "h2o"], [1, 0]), (["oh", "hf"], [-1, 0])])
+            cfg.pop("extra_pad", None)
+            cfg.pop("pad_coords", None)
         if eng in ("exc_basic", "exc_xl", "xl_esmd"):
             # excited-state BOMD / XL-BOMD / XL-ESMD on the stub's synthetic amplitudes and transition densities
             cfg["n_states"] = rng.randint(1, 4)
